@@ -227,7 +227,7 @@ def c_fasta_text(rng):
     for _ in range(rng.randint(0, 7)):
         r = rng.random()
         if r < 0.3:
-            lines.append(">" + g_header(rng, edge=rng.random() < 0.3))
+            lines.append(">" + g_header(rng, edge=rng.random() < 0.3).replace("\n", ""))
         elif r < 0.6:
             lines.append(rng.choice(["", " "]) * (rng.random() < 0.2) + g_seq(rng, NUC, True) + rng.choice(["", " ", "  "]))
         elif r < 0.75:
@@ -489,7 +489,7 @@ def c_gff_text(rng):
 
 
 def g_gb_field(rng):
-    name = rng.choice(["LOCUS", "definition", "ACCESSION", "Source", "REFERENCE", "COMMENT", "X", "ABCDEFGHIJKL", "FEATURES", "ORIGIN"])
+    name = rng.choice(["LOCUS", "definition", "ACCESSION", "Source", " Source ", "comment  ", "REFERENCE", "COMMENT", "X", "ABCDEFGHIJKL", "FEATURES", "ORIGIN"])
     def ln():
         return rng.choice(["one line", "x", "a  b ", "1..2", "     gene            1..5", "        1 acgt"])
     if name in ("FEATURES", "ORIGIN"):
@@ -613,7 +613,7 @@ GENS = [(c_fasta_rt, 8), (c_fasta_edit, 8), (c_fasta_text, 4), (c_fastq_rt, 8), 
 
 
 def cases(rng, tier):
-    n = 700 if tier == "quick" else 12000
+    n = 2000 if tier == "quick" else 40000
     fns = [f for f, w in GENS for _ in range(w)]
     for _ in range(n):
         yield rng.choice(fns)(rng)
@@ -732,7 +732,9 @@ def _run_impl(case):
         w = op.split(" ")
         k = w[0]
         try:
-            if k == "wrap":
+            if st is None and k.split("_")[-1] in ("set", "del", "get", "items", "reread", "append", "insert", "directive", "setfield"):
+                out.append("bad-op")      # no file object (the preceding read was rejected)
+            elif k == "wrap":
                 out.append("ok " + el(wrap_string(ds(w[2]), int(w[1]))))
             elif k == "fa_new":
                 st = FastaFile(chars_per_line=int(w[1])); out.append("ok")
@@ -951,7 +953,12 @@ def _o_fastq(spec):
         view = canon(f.items())
         if not f.lines:
             continue
-        back = canon(_reread(FastqFile, f, off, cpl).items())
+        try:
+            back = canon(_reread(FastqFile, f, off, cpl).items())
+        except Exception as e:  # noqa: BLE001
+            if any(len(s) == 0 for s, _ in ref.values()):
+                return v + [("C12/fastq/empty-sequence-written-unreadable", f"after {step[:3]}: {type(e).__name__}: {e}")]
+            return v + [("C12/fastq/written-file-unreadable", f"after {step[:3]}: {type(e).__name__}: {e}")]
         if view != back:
             if [(_norm(k), s, q) for k, s, q in view] == back:
                 v.append(("C12/fastq/setitem-key-not-stripped", f"after {step[:2]}: keys {[k for k, _, _ in view]} but the text says {[k for k, _, _ in back]}"))
@@ -1035,7 +1042,14 @@ def _o_genbank(spec):
     f = gb.GenBankFile()
     gb.set_locus(f, "X", len(seq))
     gb.set_annotated_sequence(f, aseq)
-    back = gb.get_annotated_sequence(_reread(gb.GenBankFile, f), spec["format"])
+    try:
+        back = gb.get_annotated_sequence(_reread(gb.GenBankFile, f), spec["format"])
+    except Exception as e:  # noqa: BLE001
+        if spec["start"] < 0:
+            return [("C12/genbank/negative-sequence-start-unreadable", f"sequence_start={spec['start']}: {type(e).__name__}: {e}")]
+        if not spec["features"]:
+            return [("C12/genbank/empty-annotation-unreadable", f"{type(e).__name__}: {e}")]
+        return [("C12/genbank/written-file-unreadable", f"{type(e).__name__}: {e}")]
     v = []
     if str(back.sequence) != str(seq) or type(back.sequence) is not type(seq):
         v.append(("C12/genbank/sequence-roundtrip", f"{spec['seq'][:30]!r} -> {str(back.sequence)[:30]!r}"))
@@ -1045,7 +1059,9 @@ def _o_genbank(spec):
         a, b = set(annot), set(back.annotation)
         lost, extra = sorted(a - b), sorted(b - a)
         key = "C12/genbank/annotation-roundtrip"
-        if len(lost) == len(extra) and all(x.key == y.key and x.qual == y.qual for x, y in zip(lost, extra)):
+        if lost and all(x.qual and all(val is None for val in x.qual.values()) for x in lost):
+            key = "C12/genbank/feature-with-only-valueless-qualifiers"
+        elif len(lost) == len(extra) and all(x.key == y.key and x.qual == y.qual for x, y in zip(lost, extra)):
             def strip_single(feat):
                 return {(l.first, l.last, l.strand, l.defect if l.first != l.last else 0) for l in feat.locs}
             if all(strip_single(x) == strip_single(y) for x, y in zip(lost, extra)):
@@ -1162,7 +1178,7 @@ def _o_gb_hist(spec):
                 f[step[1]] = tuple(step[2:]); ref[step[1]] = item(*step[2:])
             elif step[0] == "setfield":
                 f.set_field(*step[1:])
-                idx = [i for i, r in enumerate(ref) if r[0] == step[1].upper()]
+                idx = [i for i, r in enumerate(ref) if r[0] == step[1].strip().upper()]
                 if idx:
                     ref[idx[0]] = item(*step[1:])
                 else:
@@ -1175,7 +1191,12 @@ def _o_gb_hist(spec):
         g = _reread(GenBankFile, f)
         back = [g[i] for i in range(len(g))]
         if view != back:
-            return [("C12/genbank/edit/view-differs-from-text", f"after {step[:2]}: {[x[0] for x in view]} vs re-read {[x[0] for x in back]}")]
+            key = "C12/genbank/edit/view-differs-from-text"
+            if [x[0].strip() for x in view] == [x[0] for x in back] and [x[1:] for x in view] == [x[1:] for x in back]:
+                key = "C12/genbank/edit/field-name-not-stripped"
+            elif len(view) > len(back) and any(len(st) > 2 and st[0] in ("append", "insert", "set", "setfield") and not st[-2] and st[-3].strip().upper() not in ("FEATURES", "ORIGIN") for st in spec["hist"]):
+                key = "C12/genbank/edit/empty-content-field-vanishes"
+            return [(key, f"after {step[:2]}: {[x[0] for x in view]} vs re-read {[x[0] for x in back]}")]
         if view != ref:
             return [("C12/genbank/edit/differs-from-list-spec", f"after {step[:2]}: {view[:2]} expected {ref[:2]}")]
     return []
